@@ -3,6 +3,7 @@ package rules
 import (
 	"fmt"
 	"go/token"
+	"go/types"
 	"strings"
 
 	"golang.org/x/tools/go/ssa"
@@ -13,7 +14,7 @@ import (
 func init() {
 	register(&Spec{
 		ID: "C13",
-		Explanation: "Decides: R1 ordered scan — Group.ServeHTTP ranges ascending over the router list, the accepting router's serveContext runs and the function returns (no later router is tried), Add appends at the end; R2 after a rejection every path to the next matcher / to the not-found call resets the context and restores the request path from the value saved before that matcher ran; R3 the built-in version matchers write to the request or the context only on paths that return true; R4 the not-found call uses the group's (wrapped) not-found handler, Add refuses duplicate names before appending. " +
+		Explanation: "Decides: R1 ordered scan — Group.ServeHTTP ranges ascending over the router list, the accepting router's serveContext runs and the function returns (no later router is tried), Add appends at the end; R2 after a rejection every path to the next matcher / to the not-found call resets the context and restores the request path from the value saved before that matcher ran; R3 the built-in version matchers write to the request or the context only on paths that return true; R4 the not-found call uses the group's (wrapped) not-found handler, Add refuses duplicate names before appending; R5 Add stores the given matcher into the router on every returning path, Use wraps the group's not-found handler on every path; R6 (= C07.R3d/e) the pooled context is released once and not used afterwards. " +
 			"Not decided: semantics of user-supplied matchers.",
 		Assumptions: commonAssumptions,
 		Run: func(c *Ctx) {
@@ -21,6 +22,8 @@ func init() {
 			ruleGroupRejectionUndo(c, "R2")
 			ruleMatchersWriteOnAccept(c, "R3")
 			ruleGroupMisc(c, "R4")
+			ruleGroupStateOnEveryPath(c, "R5")
+			rulePoolReleaseOnce(c, "R6")
 		},
 	})
 	register(&Spec{
@@ -34,17 +37,19 @@ func init() {
 			ruleIndexRebuildComplete(c, "R2b")
 			ruleHostsGuards(c, "R3")
 			ruleBacktrackUndo(c, "R4")
+			ruleHandlerLookup(c, "R5")
 		},
 	})
 	register(&Spec{
 		ID: "C15",
-		Explanation: "Decides: R1 one version value — in the path-version matcher the prefix tested is the listed version, the text removed and the value recorded are the same version without its trailing '/', the removal is TrimPrefix of the original path, the recording is guarded by the parameter name only, the first listed hit returns; the constructor stores only versions that went through both normalisation steps; R2 both matchers write only on accepting paths (= C13.R3); R3 the header-version matcher accepts and records only on equality with the configured parameter of the parsed media type, the parse-error edge returns false. " +
+		Explanation: "Decides: R1 one version value — in the path-version matcher the prefix tested is the listed version, the text removed and the value recorded are the same version without its trailing '/', the removal is TrimPrefix of the original path, the recording is guarded by the parameter name only, the first listed hit returns; the constructor stores only versions that went through both normalisation steps; R2 both matchers write only on accepting paths (= C13.R3); R3 the header-version matcher accepts and records only on equality with the configured parameter of the parsed media type, the parse-error edge returns false; R4 the version lists keep the order in which they were given (first listed wins). " +
 			"Not decided: mime.ParseMediaType semantics.",
 		Assumptions: commonAssumptions,
 		Run: func(c *Ctx) {
 			rulePathVersion(c, "R1")
 			ruleMatchersWriteOnAccept(c, "R2")
 			ruleHeaderVersion(c, "R3")
+			ruleVersionOrderKept(c, "R4")
 		},
 	})
 }
@@ -337,6 +342,21 @@ func ruleHostsGuards(c *Ctx, rule string) {
 	if calls == 0 {
 		c.R.Add(rule, c.fk(f), "cut:port/behind:validOptionalPort(rest)", c.P.Pos(f.Pos()), false, "Hosts.Match no longer validates the text after the last ':' as a port before cutting it: hosts with a non-numeric 'port' are accepted")
 	}
+	// the two cuts are cumulative: some alternative of the looked-up host went through both ("[::1]:8080")
+	an.AllInstrs(f, func(in ssa.Instruction) {
+		base, field, val, ok := fieldStoreAny(in)
+		if !ok || field != "Path" || !strings.HasPrefix(base, "p:") {
+			return
+		}
+		t := c.O.Of(val)
+		composed := false
+		for _, alt := range sliceAlts(val, nil, 0) {
+			if alt&3 == 3 {
+				composed = true
+			}
+		}
+		c.R.Add(rule, c.fk(f), "lookup:host/port-cut-and-bracket-strip-compose", c.pos(in), composed, ifelse(composed, "a host can lose both its port and its brackets", "no alternative of the looked-up host is both cut at the port and stripped of its brackets (the looked-up value is "+t.String()+"): '[::1]:8080' keeps its brackets and no longer matches the registered '::1'"))
+	})
 	for _, hf := range hostFuncs {
 	f := hf
 	an.AllInstrs(f, func(in ssa.Instruction) {
@@ -487,6 +507,55 @@ func rulePathVersion(c *Ctx, rule string) {
 			}).Search(an.After(e))
 			c.R.Add(rule, c.fk(ctor), "store:version[i]/on-every-path", c.pos(e), path == nil, ifelse(path == nil, "every version is written back after normalisation", "a version can pass through the constructor loop without its normalised form being stored (for example one that already ends in '/' but lacks the leading '/')"))
 		}
+	}
+}
+
+// ruleVersionOrderKept is C15.R4: "the first listed one wins" — the version lists keep the caller's order: nothing
+// sorts or reverses them, and what the constructors store is the argument list (or an order-preserving copy).
+func ruleVersionOrderKept(c *Ctx, rule string) {
+	c.R.Rule(c.R.Property+"."+rule, 2, "the first listed version wins: the version lists keep the order in which they were given")
+	isVersions := func(v ssa.Value) bool {
+		ap := an.AP(v)
+		return ap == "p:version" || strings.HasSuffix(ap, ".versions") || ap == "free:version"
+	}
+	for _, k := range []string{"mux.NewPathVersion", "mux.NewHeaderVersion", "mux.(*pathVersion).Match", "mux.(*headerVersion).Match"} {
+		f := c.P.Func(k)
+		if f == nil {
+			continue
+		}
+		bad := ""
+		fns := append([]*ssa.Function{f}, f.AnonFuncs...)
+		for _, g := range fns {
+			an.AllInstrs(g, func(in ssa.Instruction) {
+				call := an.CallOf(in)
+				if call == nil || len(call.Args) == 0 || !isVersions(call.Args[0]) {
+					return
+				}
+				switch an.CalleeName(call) {
+				case "slices.Sort", "slices.SortFunc", "slices.SortStableFunc", "slices.Reverse", "sort.Strings", "sort.Slice", "sort.SliceStable", "sort.Sort", "sort.Stable":
+					bad = an.CalleeName(call) + " at " + c.pos(in)
+				}
+			})
+		}
+		c.R.Add(rule, k, "versions:not-reordered", c.P.Pos(f.Pos()), bad == "", ifelse(bad == "", "the list is never sorted or reversed", "the version list is reordered ("+bad+"): with one version nested in another (\"v2/beta\", \"v2\") not the first listed one wins"))
+	}
+	for _, k := range []string{"mux.NewPathVersion", "mux.NewHeaderVersion"} {
+		f := c.P.Func(k)
+		if f == nil {
+			continue
+		}
+		an.AllInstrs(f, func(in ssa.Instruction) {
+			st, ok := in.(*ssa.Store)
+			if !ok {
+				return
+			}
+			fa, ok := st.Addr.(*ssa.FieldAddr)
+			if !ok || an.FieldName(fa.X.Type(), fa.Field) != "versions" {
+				return
+			}
+			good := orderPreserving(st.Val, "p:version", 0)
+			c.R.Add(rule, k, "stores:versions=argument-order", c.pos(in), good, ifelse(good, "the stored list is the argument list in its order", "the constructor stores a list that is not the argument list in its original order"))
+		})
 	}
 }
 
@@ -644,4 +713,186 @@ func noDuplicateNameEdge(b *ssa.BasicBlock, succ int) bool {
 		}
 		return false
 	})
+}
+
+// ruleGroupStateOnEveryPath: Group.Add stores the matcher it was given (or the accept-all default) into the router on
+// every path that returns, and Group.Use re-wraps the group's own not-found handler on every path on which it was
+// given middlewares. A conditional store leaves the router with the matcher of an earlier Add (or the constructor's
+// default), a conditional wrap leaves the group's 404 outside the Use middlewares.
+func ruleGroupStateOnEveryPath(c *Ctx, rule string) {
+	c.R.Rule(c.R.Property+"."+rule, 2, "Group.Add always installs the given matcher; Group.Use always wraps the group's not-found handler")
+	add := c.P.MustFunc("mux.(*Group).Add")
+	isRet := func(in ssa.Instruction) bool { _, ok := in.(*ssa.Return); return ok && in.Parent() == add }
+	storesMatcher := func(in ssa.Instruction) bool {
+		base, field, _, ok := fieldStoreAny(in)
+		return ok && field == "matcher" && (base == "p:r" || strings.HasPrefix(base, "p:"))
+	}
+	path := (&an.Query{Deep: deepDefault, Target: isRet, Block: storesMatcher}).Search(an.Entry(add))
+	o := c.R.Add(rule, c.fk(add), "stores:r.matcher/on-every-path", c.P.Pos(add.Pos()), path == nil, ifelse(path == nil, "every returning path stores the router's matcher", "Group.Add can return without storing the matcher into the router: a router that is added again (after Remove, or to a second group) keeps the matcher of its earlier registration"))
+	if path != nil {
+		o.Path = c.P.PathString(path)
+	}
+	// what is stored derives from the parameter
+	an.AllInstrs(add, func(in ssa.Instruction) {
+		if !storesMatcher(in) {
+			return
+		}
+		_, _, val, _ := fieldStoreAny(in)
+		t := c.O.Of(val).String()
+		good := strings.Contains(t, "param:matcher") || strings.Contains(t, "param:m")
+		c.R.Add(rule, c.fk(add), "stores:r.matcher/value-from-argument", c.pos(in), good, ifelse(good, "the stored matcher is the argument (or the default chosen for a nil argument)", "the stored matcher is "+t+", not the argument of Add"))
+	})
+	use := c.P.MustFunc("mux.(*Group).Use")
+	var mParam *ssa.Parameter
+	for _, p := range use.Params {
+		if _, ok := p.Type().Underlying().(*types.Slice); ok {
+			mParam = p
+		}
+	}
+	assume := func(cond ssa.Value) (bool, bool) {
+		// the list of new middlewares is not empty
+		v, neg := stripNot(cond)
+		bo, ok := v.(*ssa.BinOp)
+		if !ok || mParam == nil {
+			return false, false
+		}
+		lc, ok := bo.X.(*ssa.Call)
+		if !ok {
+			return false, false
+		}
+		if call, isLen := builtinCall(lc, "len"); !isLen || call.Args[0] != ssa.Value(mParam) {
+			return false, false
+		}
+		k, ok := bo.Y.(*ssa.Const)
+		if !ok || k.Value == nil {
+			return false, false
+		}
+		n := k.Int64()
+		var val bool
+		switch {
+		case bo.Op == token.EQL && n == 0, bo.Op == token.LEQ && n == 0, bo.Op == token.LSS && n == 1:
+			val = false
+		case bo.Op == token.NEQ && n == 0, bo.Op == token.GTR && n == 0, bo.Op == token.GEQ && n == 1:
+			val = true
+		default:
+			return false, false
+		}
+		return val != neg, true
+	}
+	wraps := func(in ssa.Instruction) bool {
+		base, field, _, ok := fieldStoreAny(in)
+		return ok && base == "recv" && field == "notFound"
+	}
+	path = (&an.Query{Deep: deepDefault, Assume: assume, Target: func(in ssa.Instruction) bool { _, ok := in.(*ssa.Return); return ok && in.Parent() == use }, Block: wraps}).Search(an.Entry(use))
+	o = c.R.Add(rule, c.fk(use), "wraps:notFound/on-every-path", c.P.Pos(use.Pos()), path == nil, ifelse(path == nil, "every path with new middlewares re-wraps the group's not-found handler", "Group.Use can return without wrapping the group's not-found handler (for instance while the group has no routers): the group's 404 then runs outside those middlewares"))
+	if path != nil {
+		o.Path = c.P.PathString(path)
+	}
+}
+
+
+// sliceAlts enumerates, for a string value, the combinations of cuts its alternatives went through on the way from
+// the original text: bit 0 = a prefix kept (`x[:i]`, the port cut), bit 1 = first and last byte dropped (`x[1:…]`,
+// the bracket strip), bit 2 = any other re-slicing. Phis contribute one alternative per edge, calls of module
+// functions are evaluated on their returned values with the parameters bound to the arguments' alternatives.
+var sliceAltsBusy map[ssa.Value]bool
+
+func sliceAlts(v ssa.Value, env map[*ssa.Parameter][]int, depth int) []int {
+	uniq := func(xs []int) []int {
+		seen := map[int]bool{}
+		var out []int
+		for _, x := range xs {
+			if !seen[x] {
+				seen[x] = true
+				out = append(out, x)
+			}
+		}
+		return out
+	}
+	if depth == 0 {
+		sliceAltsBusy = map[ssa.Value]bool{}
+	}
+	if depth > 12 {
+		return []int{0}
+	}
+	if _, isPhi := v.(*ssa.Phi); isPhi {
+		if sliceAltsBusy[v] {
+			return nil
+		}
+		sliceAltsBusy[v] = true
+		defer delete(sliceAltsBusy, v)
+	}
+	switch x := v.(type) {
+	case *ssa.Parameter:
+		if alts, ok := env[x]; ok {
+			return alts
+		}
+		return []int{0}
+	case *ssa.Slice:
+		tag := 4
+		if x.Low == nil && x.High != nil {
+			tag = 1
+		} else if k, ok := x.Low.(*ssa.Const); ok && k.Value != nil && k.Int64() == 1 {
+			tag = 2
+		}
+		var out []int
+		for _, a := range sliceAlts(x.X, env, depth+1) {
+			out = append(out, a|tag)
+		}
+		return uniq(out)
+	case *ssa.Phi:
+		var out []int
+		for _, e := range x.Edges {
+			if e == ssa.Value(x) {
+				continue
+			}
+			out = append(out, sliceAlts(e, env, depth+1)...)
+		}
+		return uniq(out)
+	case *ssa.Extract:
+		if call, ok := x.Tuple.(*ssa.Call); ok {
+			switch an.CalleeName(&call.Call) {
+			case "strings.Cut", "strings.CutSuffix", "strings.CutPrefix":
+				var out []int
+				for _, a := range sliceAlts(call.Call.Args[0], env, depth+1) {
+					out = append(out, a|4)
+				}
+				return uniq(out)
+			}
+		}
+		return []int{0}
+	case *ssa.Call:
+		switch an.CalleeName(&x.Call) {
+		case "strings.ToLower", "strings.TrimSpace", "strings.Clone", "strings.ToUpper":
+			return sliceAlts(x.Call.Args[0], env, depth+1)
+		case "strings.TrimPrefix", "strings.TrimSuffix", "strings.Trim", "strings.TrimLeft", "strings.TrimRight":
+			var out []int
+			for _, a := range sliceAlts(x.Call.Args[0], env, depth+1) {
+				out = append(out, a, a|4)
+			}
+			return uniq(out)
+		}
+		g := an.StaticCallee(&x.Call)
+		if g == nil || !an.InModule(g) || len(g.Blocks) == 0 {
+			return []int{0}
+		}
+		sub := map[*ssa.Parameter][]int{}
+		args := an.CallArgs(&x.Call)
+		for i, p := range g.Params {
+			if i < len(args) {
+				sub[p] = sliceAlts(args[i], env, depth+1)
+			}
+		}
+		var out []int
+		for _, r := range an.Returns(g) {
+			if len(r.Results) > 0 {
+				out = append(out, sliceAlts(an.ReturnValue(r, 0), sub, depth+1)...)
+			}
+		}
+		if len(out) == 0 {
+			return []int{0}
+		}
+		return uniq(out)
+	}
+	return []int{0}
 }
